@@ -21,7 +21,9 @@ import (
 	"github.com/oasisprotocol/oasis-core/go/common/cbor"
 	consensusAPI "github.com/oasisprotocol/oasis-core/go/consensus/api"
 	"github.com/oasisprotocol/oasis-core/go/consensus/api/transaction"
+	cmtapi "github.com/oasisprotocol/oasis-core/go/consensus/cometbft/api"
 	"github.com/oasisprotocol/oasis-core/go/consensus/cometbft/crypto/merkle"
+	"github.com/oasisprotocol/oasis-core/go/consensus/cometbft/full"
 	"github.com/oasisprotocol/oasis-core/go/consensus/cometbft/light"
 	consensusGenesis "github.com/oasisprotocol/oasis-core/go/consensus/genesis"
 	mkvsNode "github.com/oasisprotocol/oasis-core/go/storage/mkvs/node"
@@ -40,20 +42,22 @@ func (o histOp) String() string { return fmt.Sprintf("%s ask=%d from=%d %s", o.K
 const histSuffix = "/in-multi-height-history"
 
 var histModes = map[string][]string{
-	"block":        {"raw", "relabel-height", "relabel-toplevel", "x-with-y-time", "x-with-y-hash", "x-with-y-state-root", "x-time-subsecond"},
-	"txs":          {"raw"},
-	"txs+proofs":   {"raw"},
-	"results":      {"raw", "relabel-height"},
-	"parameters":   {"raw", "relabel-height", "x-meta-y-parameters", "x-parameters-y-meta"},
-	"state-root":   {"raw"},
-	"validators":   {"raw", "relabel-height"},
-	"light-block":  {"raw"},
-	"block-latest": {"raw", "relabel-height"},
-	"proof":        {"label-x", "label-y"},
-	"watch":        {"raw", "relabel-height", "relabel-toplevel", "x-with-y-time", "x-time-subsecond"},
+	"block":              {"raw", "relabel-height", "relabel-toplevel", "x-with-y-time", "x-with-y-hash", "x-with-y-state-root", "x-time-subsecond"},
+	"txs":                {"raw"},
+	"txs+proofs":         {"raw"},
+	"txs+results":        {"raw"},
+	"txs+results-latest": {"raw"},
+	"results":            {"raw", "relabel-height"},
+	"parameters":         {"raw", "relabel-height", "x-meta-y-parameters", "x-parameters-y-meta"},
+	"state-root":         {"raw"},
+	"validators":         {"raw", "relabel-height"},
+	"light-block":        {"raw"},
+	"block-latest":       {"raw", "relabel-height"},
+	"proof":              {"label-x", "label-y"},
+	"watch":              {"raw", "relabel-height", "relabel-toplevel", "x-with-y-time", "x-time-subsecond"},
 }
 
-var histKinds = []string{"block", "txs", "txs+proofs", "results", "parameters", "state-root", "validators", "light-block", "block-latest", "proof"}
+var histKinds = []string{"block", "txs", "txs+proofs", "txs+results", "txs+results-latest", "results", "parameters", "state-root", "validators", "light-block", "block-latest", "proof"}
 
 type history struct {
 	c     *checker
@@ -116,6 +120,28 @@ func (h *history) judge(kind string, step int, op histOp, honest bool, err error
 	}
 	c.judgeAltered(verdict{kind, "history:" + op.Mode, "from-other-height", "core-history", func(b string) string { return sig(b) + histSuffix }},
 		err == nil, err, cmp, h.witness(step, op, extra))
+}
+
+// cmpTxResults compares the per-transaction results the Core returned with the conversion of
+// the honest results of height z ("" = equal).
+func (h *history) cmpTxResults(z *chainHeight, got *consensusAPI.TransactionsWithResults) string {
+	meta, err := cmtapi.NewBlockResultsMeta(z.res)
+	if err != nil {
+		return "harness: " + err.Error()
+	}
+	want, err := full.TransactionResultsFromCometBFT(z.h, z.txs, meta.TxsResults)
+	if err != nil {
+		return "harness: " + err.Error()
+	}
+	if len(want) != len(got.Results) {
+		return fmt.Sprintf("results/count %d != %d", len(got.Results), len(want))
+	}
+	for i := range want {
+		if !bytes.Equal(cbor.Marshal(want[i]), cbor.Marshal(got.Results[i])) {
+			return fmt.Sprintf("results[%d]", i)
+		}
+	}
+	return ""
 }
 
 func (h *history) blockFor(op histOp) *consensusAPI.Block {
@@ -222,6 +248,67 @@ func (h *history) step(i int, op histOp) {
 					c.r.Violation("c19/proof/honest-proof-rejected"+histSuffix, fmt.Sprintf("returned proof %d does not verify against the data hash of height %d", k, op.X), wit())
 				}
 			}
+		}
+
+	case "txs+results":
+		// Transactions of height Y with the honest results of the asked height X.
+		rg.fb.txs, rg.fb.res = y.txs, x.res
+		var got *consensusAPI.TransactionsWithResults
+		var err error
+		if c.guard("Core.GetTransactionsWithResults", wit, func() { got, err = rg.core.GetTransactionsWithResults(ctx, op.X) }) {
+			return
+		}
+		h.judge("txs", i, op, honest, err, func() (string, string, error) {
+			if got == nil {
+				return "nil-returned", "", nil
+			}
+			if d := cmpTxs(x.txs, got.Transactions); d != "" {
+				return d, "", nil
+			}
+			return h.cmpTxResults(x, got), "", nil
+		}, func(b string) string { return "c19/txs-with-results/accepted-altered/" + b }, nil)
+
+	case "txs+results-latest":
+		// An honest provider with the whole chain whose tip moves between the calls of one
+		// request for the LATEST height: what comes back must belong to one height.
+		if op.X == op.Y {
+			return
+		}
+		rg.fb.perHeight = func(hh int64) ([][]byte, *consensusAPI.BlockResults) {
+			if z := ch.at(hh); z != nil {
+				return z.txs, z.res
+			}
+			return nil, nil
+		}
+		rg.fb.latestScript = []int64{op.X, op.Y}
+		var got *consensusAPI.TransactionsWithResults
+		var err error
+		bad := c.guard("Core.GetTransactionsWithResults", wit, func() { got, err = rg.core.GetTransactionsWithResults(ctx, consensusAPI.HeightLatest) })
+		rg.fb.perHeight, rg.fb.latestScript = nil, nil
+		if bad {
+			return
+		}
+		c.r.Eval(1)
+		c.r.Count("history/steps/txs+results-latest", 1)
+		if err != nil || got == nil {
+			c.r.Count("history/txs+results-latest/refused", 1)
+			return
+		}
+		c.r.Nontrivial("history/txs+results-latest/answered")
+		var txH *chainHeight
+		for hh := ch.first; hh <= ch.tip; hh++ {
+			if z := ch.at(hh); z != nil && cmpTxs(z.txs, got.Transactions) == "" {
+				if txH == nil || h.cmpTxResults(z, got) == "" {
+					txH = z
+				}
+			}
+		}
+		switch {
+		case txH == nil:
+			c.r.Violation("c19/txs-with-results/latest/transactions-of-no-height"+histSuffix, fmt.Sprintf("Core.GetTransactionsWithResults(latest) returned transactions that are the transactions of no block of the chain (%s)", op), wit())
+		case h.cmpTxResults(txH, got) != "":
+			c.r.Violation("c19/txs-with-results/latest/transactions-and-results-of-different-heights"+histSuffix,
+				fmt.Sprintf("Core.GetTransactionsWithResults(latest) with a provider whose tip went %d -> %d returned the transactions of height %d paired with results that are not those of that height (%s)", op.X, op.Y, txH.h, h.cmpTxResults(txH, got)), wit())
 		}
 
 	case "results":
